@@ -429,7 +429,8 @@ Section Recurrence.
         unfold sgf. rewrite Ev, Ew.
         destruct (Nat.eqb t w) eqn:E.
         * apply Nat.eqb_eq in E. subst w. rewrite Et in Ew. injection Ew as Ew.
-          assert (m = 0) by lia. subst m. cbn [nw]. rewrite Nat.eqb_refl. subst dt. field. lra.
+          assert (m = 0) by lia. subst m. change (nw p 0 t t) with (if Nat.eqb t t then 1%Q else 0%Q).
+          rewrite Nat.eqb_refl. subst dt. field. lra.
         * rewrite (pair_dep_on p s t w dt (S dv) Hwf Hs Ht Hw St Sw) by lia.
           replace (dt - S dv) with m by lia. field. split; lra.
       + assert (Hlt : dw <= dv).
@@ -482,3 +483,338 @@ Section Recurrence.
     intros v dv Hv Ev. apply (Hind (length p) v dv Hv Ev). lia.
   Qed.
 End Recurrence.
+
+(* ------------------------------------------------------------------------------------------ *)
+(** * Part B. The forward phase (queue-based BFS with path counting) *)
+
+Lemma updz_length l j v : length (updz l j v) = length l.
+Proof. revert j. induction l as [|x l IH]; intros [|j]; cbn [updz length]; auto. Qed.
+
+Lemma nthz_updz l j v i : j < length l -> nthz (updz l j v) i = if Nat.eqb i j then v else nthz l i.
+Proof.
+  unfold nthz. revert j i. induction l as [|x l IH]; intros [|j] [|i] H; cbn [updz nth length Nat.eqb] in *; try lia; auto.
+  apply (IH j i). lia.
+Qed.
+
+Lemma updl_length l j v : length (updl l j v) = length l.
+Proof. revert j. induction l as [|x l IH]; intros [|j]; cbn [updl length]; auto. Qed.
+
+Lemma nth_updl l j v i : j < length l -> nth i (updl l j v) [] = if Nat.eqb i j then v else nth i l [].
+Proof.
+  revert j i. induction l as [|x l IH]; intros [|j] [|i] H; cbn [updl nth length Nat.eqb] in *; try lia; auto.
+  apply (IH j i). lia.
+Qed.
+
+Lemma nthz_repeat c m k : k < m -> nthz (repeat c m) k = c.
+Proof. intros H. unfold nthz. apply nth_repeat_lt || (revert k H; induction m as [|m IH]; intros [|k] H; cbn; try lia; auto; apply IH; lia). Qed.
+
+Lemma nodup_snoc {A} (l : list A) x : NoDup l -> ~ In x l -> NoDup (l ++ [x]).
+Proof.
+  intros Hnd Hx. apply (Permutation_NoDup (l := x :: l)); [apply Permutation_cons_append|].
+  constructor; assumption.
+Qed.
+
+Definition sortedL (f : nat -> Z) (L : list nat) : Prop :=
+  forall l1 l2, L = l1 ++ l2 -> forall a b, In a l1 -> In b l2 -> (f a <= f b)%Z.
+
+Lemma sortedL_snoc f L x : sortedL f L -> (forall a, In a L -> (f a <= f x)%Z) -> sortedL f (L ++ [x]).
+Proof.
+  intros HS Hx l1 l2 E a b Ha Hb.
+  destruct (exists_last (l := l2)) as (l2' & y & ->); [intros ->; destruct Hb|].
+  rewrite app_assoc in E. apply app_inj_tail in E. destruct E as [E <-].
+  apply in_app_iff in Hb. destruct Hb as [Hb|[<-|[]]].
+  - exact (HS l1 l2' E a b Ha Hb).
+  - apply Hx. rewrite E. apply in_app_iff. left. exact Ha.
+Qed.
+
+Lemma sortedL_ext f g L : (forall a, In a L -> f a = g a) -> sortedL f L -> sortedL g L.
+Proof.
+  intros He HS l1 l2 E a b Ha Hb.
+  rewrite <- (He a), <- (He b); [exact (HS l1 l2 E a b Ha Hb)| |]; rewrite E; apply in_app_iff; auto.
+Qed.
+
+Definition lsumf (f : nat -> Q) (l : list nat) : Q := fold_right (fun u acc => (f u + acc)%Q) 0%Q l.
+
+Lemma lsumf_ext f g l : (forall u, In u l -> (f u == g u)%Q) -> (lsumf f l == lsumf g l)%Q.
+Proof.
+  induction l as [|a l IH]; intros H; cbn [lsumf fold_right]; [reflexivity|].
+  fold (lsumf f l). fold (lsumf g l). rewrite (H a) by (left; reflexivity).
+  rewrite IH by (intros u Hu; apply H; right; exact Hu). reflexivity.
+Qed.
+
+Lemma lsumf_cons f a l : lsumf f (a :: l) = (f a + lsumf f l)%Q.
+Proof. reflexivity. Qed.
+
+Lemma lsumf_app f l1 l2 : (lsumf f (l1 ++ l2) == lsumf f l1 + lsumf f l2)%Q.
+Proof.
+  induction l1 as [|a l1 IH]; [cbn [app]; unfold lsumf at 2; cbn [fold_right]; ring|]. cbn [app]. rewrite !lsumf_cons. rewrite IH. ring.
+Qed.
+
+Lemma lsumf_rev f l : (lsumf f (rev l) == lsumf f l)%Q.
+Proof.
+  induction l as [|a l IH]; [reflexivity|]. cbn [rev]. rewrite lsumf_app, IH, !lsumf_cons. unfold lsumf at 2. cbn [fold_right]. ring.
+Qed.
+
+(** A sum over a duplicate-free list of indices < n is a [bsum] against the membership indicator. *)
+Lemma lsumf_bsum n f l : NoDup l -> (forall u, In u l -> u < n) ->
+  (lsumf f l == bsum n (fun u => if memn u l then f u else 0))%Q.
+Proof.
+  induction l as [|a l IH]; intros Hnd Hlt.
+  - cbn [lsumf fold_right]. symmetry. apply bsum_0. intros; reflexivity.
+  - inversion Hnd as [|? ? Hna Hnd']; subst. rewrite lsumf_cons.
+    rewrite IH by (try exact Hnd'; intros u Hu; apply Hlt; right; exact Hu).
+    rewrite <- (bsum_delta n a (f a)) by (apply Hlt; left; reflexivity).
+    rewrite <- bsum_plus. apply bsum_ext. intros u _.
+    unfold memn. cbn [existsb]. fold (memn u l).
+    destruct (Nat.eqb u a) eqn:E.
+    + apply Nat.eqb_eq in E. subst u. destruct (memn a l) eqn:E2; [apply memn_In in E2; contradiction|].
+      cbn [orb]. ring.
+    + cbn [orb]. destruct (memn u l); ring.
+Qed.
+
+Definition dzf (dists : list Z) (v : nat) : Z := nthz dists v.
+
+Section Forward.
+  Context (p : graph) (s : nat) (Hwf : gwf p) (Hnd : gnd p) (Hs : s < length p).
+
+  (** [L] = nodes discovered so far, in discovery order. *)
+  Record CoreD (L : list nat) (dists : list Z) : Prop := {
+    c_len : length dists = length p;
+    c_nd : NoDup L;
+    c_lt : forall v, In v L -> v < length p;
+    c_in : forall v, In v L -> (0 <= dzf dists v)%Z;
+    c_out : forall v, v < length p -> ~ In v L -> dzf dists v = (-1)%Z;
+    c_sorted : sortedL (dzf dists) L;
+    c_reach : forall v, In v L -> exists k, dzf dists v = Z.of_nat k /\ reachk p (src p s) k v;
+    c_s0 : dzf dists s = 0%Z }.
+
+  (** While node i (popped) is being processed, the prefix r1 of its row done. *)
+  Record InvD (seen : list nat) (i : nat) (r1 q : list nat) (dists : list Z) : Prop := {
+    i_core : CoreD (rev seen ++ i :: q) dists;
+    i_range : forall y, In y (rev seen ++ i :: q) -> (dzf dists y <= dzf dists i + 1)%Z;
+    i_closed : forall u w, In u seen -> In w (row p u) ->
+                 In w (rev seen ++ i :: q) /\ (dzf dists w <= dzf dists u + 1)%Z;
+    i_cur : forall w, In w r1 -> In w (rev seen ++ i :: q) }.
+
+  (** Between two pops. *)
+  Record OutD (seen q : list nat) (dists : list Z) : Prop := {
+    o_core : CoreD (rev seen ++ q) dists;
+    o_range : forall x y, In x q -> In y (rev seen ++ q) -> (dzf dists y <= dzf dists x + 1)%Z;
+    o_closed : forall u w, In u seen -> In w (row p u) ->
+                 In w (rev seen ++ q) /\ (dzf dists w <= dzf dists u + 1)%Z }.
+
+  Lemma OutD_pop seen i q dists : OutD seen (i :: q) dists -> InvD seen i [] q dists.
+  Proof.
+    intros [HC HR HCl]. constructor; [exact HC| |exact HCl|intros w []].
+    intros y Hy. apply HR; [left; reflexivity|exact Hy].
+  Qed.
+
+  Lemma rev_cons_app (seen : list nat) i q : rev (i :: seen) ++ q = rev seen ++ i :: q.
+  Proof. cbn [rev]. rewrite <- app_assoc. reflexivity. Qed.
+
+  Lemma InvD_done seen i q dists : InvD seen i (row p i) q dists -> OutD (i :: seen) q dists.
+  Proof.
+    intros [HC HR HCl Hcur]. rewrite <- (rev_cons_app seen i q) in *. constructor.
+    - exact HC.
+    - intros x y Hx Hy. assert (H1 := HR y Hy).
+      assert (H2 : (dzf dists i <= dzf dists x)%Z).
+      { apply (c_sorted _ _ HC (rev (i :: seen)) q eq_refl); [|exact Hx].
+        cbn [rev]. apply in_app_iff. right. left. reflexivity. }
+      lia.
+    - intros u w [<-|Hu] Hw.
+      + assert (Hin := Hcur w Hw). split; [exact Hin|]. apply HR. exact Hin.
+      + apply HCl; assumption.
+  Qed.
+
+  Lemma InvD_intro seen i r1 q dists L :
+    L = rev seen ++ i :: q -> CoreD L dists ->
+    (forall y, In y L -> (dzf dists y <= dzf dists i + 1)%Z) ->
+    (forall u w, In u seen -> In w (row p u) -> In w L /\ (dzf dists w <= dzf dists u + 1)%Z) ->
+    (forall w, In w r1 -> In w L) -> InvD seen i r1 q dists.
+  Proof. intros ->; intros; constructor; assumption. Qed.
+
+  Definition dstep (i j : nat) (qd : list nat * list Z) : list nat * list Z :=
+    if (dzf (snd qd) j <? 0)%Z then (fst qd ++ [j], updz (snd qd) j (dzf (snd qd) i + 1)%Z) else qd.
+
+  Lemma in_mid (seen : list nat) i q : In i (rev seen ++ i :: q).
+  Proof. apply in_app_iff. right. left. reflexivity. Qed.
+
+  Lemma InvD_step seen i r1 q dists j :
+    InvD seen i r1 q dists -> j < length p -> In j (row p i) ->
+    InvD seen i (r1 ++ [j]) (fst (dstep i j (q, dists))) (snd (dstep i j (q, dists))).
+  Proof.
+    intros [HC HR HCl Hcur] Hj Hin. unfold dstep. cbn [fst snd].
+    set (L := rev seen ++ i :: q) in *.
+    assert (HiL : In i L) by apply in_mid.
+    destruct (dzf dists j <? 0)%Z eqn:E; cbn [fst snd].
+    - apply Z.ltb_lt in E.
+      assert (HjL : ~ In j L) by (intros H; assert (H0 := c_in _ _ HC j H); lia).
+      assert (EL : rev seen ++ i :: q ++ [j] = L ++ [j]) by (unfold L; rewrite <- app_assoc; reflexivity).
+      assert (Hdz : forall v, dzf (updz dists j (dzf dists i + 1)%Z) v = if Nat.eqb v j then (dzf dists i + 1)%Z else dzf dists v).
+      { intros v. unfold dzf. apply nthz_updz. rewrite (c_len _ _ HC). exact Hj. }
+      assert (Hsame : forall v, In v L -> dzf (updz dists j (dzf dists i + 1)%Z) v = dzf dists v).
+      { intros v Hv. rewrite Hdz. destruct (Nat.eqb v j) eqn:E2; [apply Nat.eqb_eq in E2; subst v; contradiction|reflexivity]. }
+      assert (Hnew : dzf (updz dists j (dzf dists i + 1)%Z) j = (dzf dists i + 1)%Z) by (rewrite Hdz, Nat.eqb_refl; reflexivity).
+      assert (Hi0 := c_in _ _ HC i HiL).
+      apply (InvD_intro _ _ _ _ _ (L ++ [j])); [symmetry; exact EL| | | |].
+      + constructor.
+        * rewrite updz_length. exact (c_len _ _ HC).
+        * apply nodup_snoc; [exact (c_nd _ _ HC)|exact HjL].
+        * intros v Hv. apply in_app_iff in Hv. destruct Hv as [Hv|[<-|[]]]; [exact (c_lt _ _ HC v Hv)|exact Hj].
+        * intros v Hv. apply in_app_iff in Hv. destruct Hv as [Hv|[<-|[]]].
+          -- rewrite (Hsame v Hv). exact (c_in _ _ HC v Hv).
+          -- rewrite Hnew. lia.
+        * intros v Hv Hn. rewrite Hdz. destruct (Nat.eqb v j) eqn:E2.
+          -- apply Nat.eqb_eq in E2. subst v. exfalso. apply Hn. apply in_app_iff. right. left. reflexivity.
+          -- apply (c_out _ _ HC v Hv). intros H. apply Hn. apply in_app_iff. left. exact H.
+        * apply sortedL_snoc.
+          -- apply (sortedL_ext (dzf dists)); [intros a Ha; symmetry; apply Hsame; exact Ha|exact (c_sorted _ _ HC)].
+          -- intros a Ha. rewrite (Hsame a Ha), Hnew. apply HR. exact Ha.
+        * intros v Hv. apply in_app_iff in Hv. destruct Hv as [Hv|[<-|[]]].
+          -- rewrite (Hsame v Hv). exact (c_reach _ _ HC v Hv).
+          -- destruct (c_reach _ _ HC i HiL) as (k & Hk & Hr). exists (S k). split; [rewrite Hnew; lia|].
+             cbn [reachk]. exists i. split; assumption.
+        * rewrite Hdz. destruct (Nat.eqb s j) eqn:E2; [|exact (c_s0 _ _ HC)].
+          apply Nat.eqb_eq in E2. subst j. assert (H0 := c_s0 _ _ HC). lia.
+      + intros y Hy. rewrite (Hsame i HiL). apply in_app_iff in Hy. destruct Hy as [Hy|[<-|[]]].
+        * rewrite (Hsame y Hy). apply HR. exact Hy.
+        * rewrite Hnew. lia.
+      + intros u w Hu Hw. destruct (HCl u w Hu Hw) as [H1 H2]. split; [apply in_app_iff; left; exact H1|].
+        assert (HuL : In u L) by (unfold L; apply in_app_iff; left; apply in_rev in Hu; exact Hu).
+        rewrite (Hsame w H1), (Hsame u HuL). exact H2.
+      + intros w Hw. apply in_app_iff in Hw. apply in_app_iff. destruct Hw as [Hw|[<-|[]]]; [left; apply Hcur; exact Hw|right; left; reflexivity].
+    - apply Z.ltb_ge in E. constructor; [exact HC|exact HR|exact HCl|].
+      intros w Hw. apply in_app_iff in Hw. destruct Hw as [Hw|[<-|[]]]; [apply Hcur; exact Hw|].
+      destruct (in_dec Nat.eq_dec j (rev seen ++ i :: q)) as [H|H]; [exact H|].
+      assert (H1 := c_out _ _ HC j Hj H). lia.
+  Qed.
+  (** ** sigma and the predecessor lists *)
+  Definition pc (dists : list Z) (w u : nat) : bool := memn w (row p u) && (dzf dists u + 1 =? dzf dists w)%Z.
+  Definition tm (dists sigma : list Z) (w u : nat) : Q := if pc dists w u then zq (nthz sigma u) else 0%Q.
+  Definition curb (dists : list Z) (i : nat) (r1 : list nat) (w : nat) : bool :=
+    memn w r1 && (dzf dists i + 1 =? dzf dists w)%Z.
+
+  Record InvS (seen : list nat) (i : nat) (r1 : list nat) (dists sigma : list Z) (preds : list (list nat)) : Prop := {
+    s_lens : length sigma = length p;
+    s_lenp : length preds = length p;
+    s_src : nthz sigma s = 1%Z;
+    s_sig : forall w, w < length p -> w <> s ->
+       (zq (nthz sigma w) == lsumf (tm dists sigma w) seen + (if curb dists i r1 w then zq (nthz sigma i) else 0))%Q;
+    s_preds : forall w, w < length p ->
+       nth w preds [] = filter (pc dists w) (rev seen) ++ (if curb dists i r1 w then [i] else []) }.
+
+  Record OutS (seen : list nat) (dists sigma : list Z) (preds : list (list nat)) : Prop := {
+    os_lens : length sigma = length p;
+    os_lenp : length preds = length p;
+    os_src : nthz sigma s = 1%Z;
+    os_sig : forall w, w < length p -> w <> s -> (zq (nthz sigma w) == lsumf (tm dists sigma w) seen)%Q;
+    os_preds : forall w, w < length p -> nth w preds [] = filter (pc dists w) (rev seen) }.
+
+  Lemma OutS_pop seen i dists sigma preds : OutS seen dists sigma preds -> InvS seen i [] dists sigma preds.
+  Proof.
+    intros [H1 H2 H3 H4 H5]. constructor; try assumption.
+    - intros w Hw Hws. unfold curb. cbn [memn existsb andb]. rewrite (H4 w Hw Hws). ring.
+    - intros w Hw. unfold curb. cbn [memn existsb andb]. rewrite app_nil_r. exact (H5 w Hw).
+  Qed.
+
+  Lemma InvS_done seen i dists sigma preds :
+    InvS seen i (row p i) dists sigma preds -> OutS (i :: seen) dists sigma preds.
+  Proof.
+    intros [H1 H2 H3 H4 H5]. constructor; try assumption.
+    - intros w Hw Hws. rewrite (H4 w Hw Hws). rewrite lsumf_cons. unfold tm at 3, pc, curb.
+      destruct (memn w (row p i) && (dzf dists i + 1 =? dzf dists w)%Z); ring.
+    - intros w Hw. rewrite (H5 w Hw). cbn [rev]. rewrite filter_app. cbn [filter]. unfold pc at 3, curb.
+      destruct (memn w (row p i) && (dzf dists i + 1 =? dzf dists w)%Z); reflexivity.
+  Qed.
+
+  Lemma memn_snoc w r j : memn w (r ++ [j]) = memn w r || Nat.eqb w j.
+  Proof. unfold memn. rewrite existsb_app. cbn [existsb]. rewrite orb_false_r. reflexivity. Qed.
+
+  Lemma memn_false w r : ~ In w r -> memn w r = false.
+  Proof. intros H. destruct (memn w r) eqn:E; [apply memn_In in E; contradiction|reflexivity]. Qed.
+
+  Lemma in_seen_L (seen : list nat) i q u : In u seen -> In u (rev seen ++ i :: q).
+  Proof. intros H. apply in_app_iff. left. apply in_rev in H. exact H. Qed.
+
+  (** Stage 1 of [visit_edge] (discovery of j) does not disturb the sigma / preds invariant. *)
+  Lemma InvS_stage1 seen i r1 q dists sigma preds j :
+    InvD seen i r1 q dists -> InvS seen i r1 dists sigma preds -> j < length p ->
+    InvS seen i r1 (snd (dstep i j (q, dists))) sigma preds.
+  Proof.
+    intros HD HS Hj. unfold dstep. cbn [fst snd].
+    destruct (dzf dists j <? 0)%Z eqn:E; cbn [snd]; [|exact HS].
+    apply Z.ltb_lt in E. destruct HD as [HC HR HCl Hcur]. set (L := rev seen ++ i :: q) in *.
+    assert (HjL : ~ In j L) by (intros H; assert (H0 := c_in _ _ HC j H); lia).
+    set (d1 := updz dists j (dzf dists i + 1)%Z).
+    assert (Hdz : forall v, v <> j -> dzf d1 v = dzf dists v).
+    { intros v Hv. unfold dzf, d1. rewrite nthz_updz by (rewrite (c_len _ _ HC); exact Hj).
+      destruct (Nat.eqb v j) eqn:E2; [apply Nat.eqb_eq in E2; contradiction|reflexivity]. }
+    assert (HneL : forall v, In v L -> v <> j) by (intros v Hv ->; contradiction).
+    assert (Hpc : forall w u, In u seen -> pc d1 w u = pc dists w u).
+    { intros w u Hu. unfold pc. destruct (Nat.eq_dec w j) as [->|Nw].
+      - rewrite (memn_false j (row p u)); [reflexivity|]. intros Hin. destruct (HCl u j Hu Hin) as [H _]. contradiction.
+      - rewrite (Hdz w Nw), (Hdz u) by (apply HneL, in_seen_L; exact Hu). reflexivity. }
+    assert (Hcb : forall w, curb d1 i r1 w = curb dists i r1 w).
+    { intros w. unfold curb. destruct (memn w r1) eqn:Em; [|reflexivity]. cbn [andb].
+      apply memn_In in Em. rewrite (Hdz w) by (apply HneL, Hcur; exact Em).
+      rewrite (Hdz i) by (apply HneL, in_mid). reflexivity. }
+    destruct HS as [H1 H2 H3 H4 H5]. constructor; try assumption.
+    - intros w Hw Hws. rewrite (H4 w Hw Hws), Hcb.
+      rewrite (lsumf_ext (tm d1 sigma w) (tm dists sigma w)); [reflexivity|].
+      intros u Hu. unfold tm. rewrite (Hpc w u Hu). reflexivity.
+    - intros w Hw. rewrite (H5 w Hw), Hcb. f_equal. apply filter_ext_in.
+      intros u Hu. symmetry. apply Hpc. apply in_rev. exact Hu.
+  Qed.
+
+  (** Stage 2: the path-count / predecessor update under fixed distances. *)
+  Lemma InvS_stage2 seen i r1 q d1 sigma preds j :
+    InvD seen i r1 q d1 -> InvS seen i r1 d1 sigma preds -> j < length p -> ~ In j r1 ->
+    let hit := (dzf d1 j =? dzf d1 i + 1)%Z in
+    InvS seen i (r1 ++ [j]) d1
+         (if hit then updz sigma j (nthz sigma j + nthz sigma i)%Z else sigma)
+         (if hit then updl preds j (nth j preds [] ++ [i]) else preds).
+  Proof.
+    intros HD HS Hj Hjr hit. destruct HD as [HC HR HCl Hcur]. destruct HS as [H1 H2 H3 H4 H5].
+    assert (Hcb : forall w, curb d1 i (r1 ++ [j]) w = if Nat.eqb w j then hit else curb d1 i r1 w).
+    { intros w. unfold curb. rewrite memn_snoc. destruct (Nat.eqb w j) eqn:E.
+      - apply Nat.eqb_eq in E. subst w. rewrite (memn_false j r1 Hjr). cbn [orb andb]. unfold hit.
+        rewrite Z.eqb_sym. reflexivity.
+      - rewrite orb_false_r. reflexivity. }
+    assert (Hcbj : curb d1 i r1 j = false) by (unfold curb; rewrite (memn_false j r1 Hjr); reflexivity).
+    destruct hit eqn:Eh.
+    - unfold hit in Eh. apply Z.eqb_eq in Eh.
+      assert (Hi0 := c_in _ _ HC i (in_mid seen i q)).
+      assert (Hji : j <> i) by (intros ->; lia).
+      assert (Hjs : j <> s) by (intros ->; rewrite (c_s0 _ _ HC) in Eh; lia).
+      assert (Hjseen : forall u, In u seen -> u <> j).
+      { intros u Hu ->. assert (Hle : (dzf d1 j <= dzf d1 i)%Z).
+        { apply (c_sorted _ _ HC (rev seen) (i :: q) eq_refl); [apply in_rev in Hu; exact Hu|left; reflexivity]. }
+        lia. }
+      assert (Hsg : forall v, nthz (updz sigma j (nthz sigma j + nthz sigma i)%Z) v =
+                              if Nat.eqb v j then (nthz sigma j + nthz sigma i)%Z else nthz sigma v).
+      { intros v. apply nthz_updz. rewrite H1. exact Hj. }
+      assert (Hsgne : forall v, v <> j -> nthz (updz sigma j (nthz sigma j + nthz sigma i)%Z) v = nthz sigma v).
+      { intros v Hv. rewrite Hsg. destruct (Nat.eqb v j) eqn:E; [apply Nat.eqb_eq in E; contradiction|reflexivity]. }
+      assert (Hls : forall w, (lsumf (tm d1 (updz sigma j (nthz sigma j + nthz sigma i)%Z) w) seen == lsumf (tm d1 sigma w) seen)%Q).
+      { intros w. apply lsumf_ext. intros u Hu. unfold tm. rewrite (Hsgne u (Hjseen u Hu)). reflexivity. }
+      constructor.
+      + rewrite updz_length. exact H1.
+      + rewrite updl_length. exact H2.
+      + rewrite Hsgne by (intros E; apply Hjs; symmetry; exact E). exact H3.
+      + intros w Hw Hws. rewrite Hls, Hcb, (Hsgne i (fun E => Hji (eq_sym E))).
+        rewrite Hsg. destruct (Nat.eqb w j) eqn:E.
+        * apply Nat.eqb_eq in E. subst w. unfold zq. rewrite inject_Z_plus. fold (zq (nthz sigma j)). fold (zq (nthz sigma i)).
+          rewrite (H4 j Hj Hjs), Hcbj. ring.
+        * exact (H4 w Hw Hws).
+      + intros w Hw. rewrite nth_updl by (rewrite H2; exact Hj). rewrite Hcb. destruct (Nat.eqb w j) eqn:E.
+        * apply Nat.eqb_eq in E. subst w. rewrite (H5 j Hj), Hcbj, app_nil_r. reflexivity.
+        * exact (H5 w Hw).
+    - constructor; try assumption.
+      + intros w Hw Hws. rewrite Hcb. destruct (Nat.eqb w j) eqn:E.
+        * apply Nat.eqb_eq in E. subst w. rewrite (H4 j Hj Hws), Hcbj. reflexivity.
+        * exact (H4 w Hw Hws).
+      + intros w Hw. rewrite Hcb. destruct (Nat.eqb w j) eqn:E.
+        * apply Nat.eqb_eq in E. subst w. rewrite (H5 j Hj), Hcbj. reflexivity.
+        * exact (H5 w Hw).
+  Qed.
+End Forward.
